@@ -1159,6 +1159,9 @@ class Engine:
                 return x
             if ck in ("PtrToPtr", "Subtype") or ck.startswith("PointerCoercion(MutToConstPointer"):
                 return x
+            if ck == "Transmute" and isinstance(x, VRef) and src_t.raw.startswith("std::ptr::NonNull<") and dst_t.kind == "ptr" \
+                    and src_t.raw[len("std::ptr::NonNull<"):-1].replace(" ", "") == dst_t.elem.raw.replace(" ", ""):
+                return x  # NonNull<T> -> *const T: the same pointer
             raise SymError("unsupported cast kind " + ck)
         raise SymError("unsupported cast kind " + ck)
 
@@ -1491,7 +1494,10 @@ def _zip_store(arrs, vals, k):
         return VSeq([_zip_store(a, v, k) for a, v in zip(arrs.elems, vals.elems)], z3.Store(arrs.len, k, vals.len))
     if isinstance(arrs, VStr):
         return VStr(z3.Store(arrs.id, k, vals.id))
-    raise SymError(f"map value shape {arrs!r}")
+    from values import VBlob
+    if isinstance(arrs, VBlob) and isinstance(vals, VBlob):
+        return VBlob(z3.Store(arrs.id, k, vals.id), z3.Store(arrs.len, k, vals.len))
+    raise SymError(f"map value shape {arrs!r} <- {vals!r}")
 
 
 def _split_path(p):
